@@ -37,6 +37,9 @@ def experiment_frame_spec(draw, purpose):
     geos.append({'g': grp, 'lv': draw(st.sampled_from([1, 2, 3, 5, 8])), 'am': draw(st.sampled_from([1, 4, 16, 64])),
                  'ul': draw(st.integers(0, 3)) if grp == 'u' else None,
                  'clv': draw(st.sampled_from([1, 2, 4]))})
+  if purpose == 'c19' and len(geos) >= 5:
+    for k in range(draw(st.integers(0, 2))):
+      geos[draw(st.integers(0, len(geos) - 1))]['kind'] = draw(st.sampled_from(['ind', 'ind', 'const']))
   order = list(draw(st.permutations(list(range(len(geos))))))
   geos = [geos[i] for i in order]
   spec = {
@@ -53,6 +56,9 @@ def experiment_frame_spec(draw, purpose):
       'perm_seed': draw(st.integers(0, 10 ** 6)),
       'str_ids': draw(st.booleans()),
   }
+  if purpose == 'c19':
+    spec['outlier'] = ({'pos': draw(st.integers(0, N - 1)), 'amount': draw(st.sampled_from([50, 200, 500])),
+                        'geo': draw(st.integers(0, len(geos) - 1))} if draw(st.booleans()) else None)
   # names / labels
   names = {}
   labels = {}
@@ -130,8 +136,14 @@ def materialise(spec, drop_unassigned=False, permute=True, split_first_treatment
       continue
     e = np.asarray(spec['noise'][gi], float)
     v = g['lv'] * f + g['am'] * e / 256.0 + g['lv'] * ((7 * gi + 3 * d_idx) % 11) / 8.0
+    if g.get('kind') == 'ind':
+      v = 50.0 * g['lv'] + e / 2.0 + ((5 * gi + 7 * d_idx) % 13)
+    elif g.get('kind') == 'const':
+      v = np.full(N, 10.0 * g['lv'])
     if g['g'] == 't':
       v = v + spec['lift'] * is_test + spec['lift_cool'] * is_cool
+    if spec.get('outlier') and spec['outlier']['geo'] == gi:
+      v = v + spec['outlier']['amount'] * (d_idx == spec['outlier']['pos'])
     v = np.maximum(0, np.round(v * 1024)) / 1024
     c = None
     if has_cost:
